@@ -92,6 +92,11 @@ CLAIMED = {
     "C15": _e1("Exact one-step functions for ack, read data and the whole memory array (array is part of the free "
                "state), plus the construction-time image from reset: read-your-writes over all histories.",
                "DESIGN.md section 4 C15"),
+    "C19": _e1("A zoo of components sampled from all netlist families (plus register bridges over Builder maps) is "
+               "elaborated twice per instance under a guard (internal errors, RecursionError, second-elaboration "
+               "failures, metadata drift are violations by observation) and a reset-rooted miter between the two "
+               "netlists of one instance decides 'same hardware' for every input sequence of 8 cycles.",
+               "DESIGN.md section 4 C19"),
 }
 
 NOT_APPLICABLE = {
